@@ -23,6 +23,13 @@ func newPacketAccumulator(pid uint16, programMap *programMap) *packetAccumulator
 func (b *packetAccumulator) add(p *Packet) (ps []*Packet) {
 	mps := b.q
 
+	// Throw away packet if it's the same as the previous one
+	// This must be checked first since a duplicate packet is not a discontinuity
+	if isSameAsPrevious(mps, p) {
+		verifAcc(b.pid, p.Header.ContinuityCounter, "duplicate")
+		return
+	}
+
 	// Empty buffer if we detect a discontinuity
 	if hasDiscontinuity(mps, p) {
 		verifAcc(b.pid, p.Header.ContinuityCounter, "discontinuity")
@@ -32,12 +39,6 @@ func (b *packetAccumulator) add(p *Packet) (ps []*Packet) {
 		} else {
 			mps = make([]*Packet, 0, 10)
 		}
-	}
-
-	// Throw away packet if it's the same as the previous one
-	if isSameAsPrevious(mps, p) {
-		verifAcc(b.pid, p.Header.ContinuityCounter, "duplicate")
-		return
 	}
 
 	// Flush buffer if new payload starts here
